@@ -543,6 +543,22 @@ SubprocessResult run_process(const vector<string>& cmd, const string* stdin_data
   unordered_map<int, Buffer> write_fd_to_buffer;
   unordered_map<int, string*> read_fd_to_buffer;
 
+  // The pipe ends that are still open when this function returns or throws
+  // (those that did not reach EOF before the child terminated) must be closed
+  // here, since Subprocess does not own them
+  struct PipeCloser {
+    unordered_map<int, Buffer>& write_fds;
+    unordered_map<int, string*>& read_fds;
+    ~PipeCloser() {
+      for (const auto& it : this->write_fds) {
+        close(it.first);
+      }
+      for (const auto& it : this->read_fds) {
+        close(it.first);
+      }
+    }
+  } pipe_closer{write_fd_to_buffer, read_fd_to_buffer};
+
   Poll p;
   if (stdin_data) {
     write_fd_to_buffer.emplace(sp.stdin_fd(), stdin_data);
